@@ -487,4 +487,38 @@ def rule_g(ctx):
     return r
 
 
-RULES = [rule_a, rule_b, rule_c, rule_d, rule_e, rule_f, rule_g]
+
+def rule_h(ctx):
+    r = RuleResult("C13-h", "a URL that already ends in .sass/.scss/.css is only tried literally and as a partial: once find_import has recognised the extension, no "
+                   "path leads on to the probes that replace or add an extension")
+    prog = ctx.prog()
+    b = prog.one("evaluate::visitor::Visitor::find_import")
+    ext_tests = []
+    for c in b.calls():
+        if an.tail2(c.callee) == "PartialEq::eq" and len(c.args) == 2:
+            x = an.trace_operand(b, c.args[0])
+            if x.root[0] == "call" and an.tail2(x.root[1]) == "Path::extension":
+                ext_tests.append(c)
+    generic = [c for c in b.calls() if an.tail2(c.callee) == "Path::with_extension" and len(c.args) == 2 and an.trace_operand(b, c.args[1]).root[0] == "const"]
+    if len(ext_tests) < 3 or len(generic) < 6:
+        raise AnchorMissing("find_import: expected the three extension tests and the generic with_extension probes (found %d / %d)" % (len(ext_tests), len(generic)))
+    gblocks = {c.bb for c in generic}
+    n = 0
+    for c in ext_tests:
+        for sw, pol in common.switches_on_call(b, c):
+            tgt = common.bool_edge(b, sw, pol)
+            n += 1
+            reach = common.reach_from(b, tgt)
+            hit = sorted(g for g in gblocks if g in reach)
+            key = "find_import|explicit-extension-is-final|test#%d" % n
+            if not hit:
+                r.ok(key)
+            else:
+                r.violate(key, "after find_import has recognised an explicit .sass/.scss/.css extension, control can continue into the generic search (with_extension(\"...\") probes at "
+                          "line %d ...): `@import \"theme.scss\"` can then load theme.sass / theme.css or their .import variants, and a missing file is no longer an error"
+                          % b.term(hit[0])["span"]["l"], c.loc())
+    r.floor("extension tests", n, 3)
+    return r
+
+
+RULES = [rule_a, rule_b, rule_c, rule_d, rule_e, rule_f, rule_g, rule_h]
